@@ -7,8 +7,10 @@ import (
 	"io"
 	"net/http"
 	"net/url"
+	"os"
 	"sort"
 	"strings"
+	"time"
 
 	"github.com/charmbracelet/log"
 
@@ -25,9 +27,9 @@ type reqSpec struct {
 }
 
 type spy struct {
-	hdr  http.Header
-	code int
-	body strings.Builder
+	hdr   http.Header
+	code  int
+	body  strings.Builder
 	owner int
 }
 
@@ -47,6 +49,23 @@ func (s *spy) Write(b []byte) (int, error) {
 	return len(b), nil
 }
 
+var staticDir string
+
+// staticFixture creates (once per process) a directory with one file for the Static scenario.
+func staticFixture() string {
+	if staticDir == "" {
+		d, err := os.MkdirTemp(os.Getenv("VERIF_DIR")+"/.work", "c05static")
+		if err != nil {
+			d, _ = os.MkdirTemp("", "c05static")
+		}
+		_ = os.WriteFile(d+"/file.txt", []byte("file content"), 0o644)
+		mt := time.Date(2020, 1, 2, 3, 4, 5, 0, time.UTC)
+		_ = os.Chtimes(d+"/file.txt", mt, mt)
+		staticDir = d
+	}
+	return staticDir
+}
+
 type reqVal struct{ id string }
 
 func (r *reqVal) ID() string { return r.id }
@@ -61,13 +80,13 @@ type namer interface{ Name() string }
 
 // world is one fresh instance of a scenario: a fully set-up Flame and the per-thread plan.
 type world struct {
-	f        *flamego.Flame
-	plan     [][]reqSpec // per thread
-	notes    [][]strings.Builder
-	curIdx   []int
-	curReq   []*http.Request
-	curSpy   []*spy
-	serialT  int // thread id to use when the scheduler is not active (serial baseline)
+	f       *flamego.Flame
+	plan    [][]reqSpec // per thread
+	notes   [][]strings.Builder
+	curIdx  []int
+	curReq  []*http.Request
+	curSpy  []*spy
+	serialT int // thread id to use when the scheduler is not active (serial baseline)
 }
 
 func (w *world) me() int {
@@ -224,7 +243,11 @@ var scenarios = []scenario{
 		w.f.Get("/m/{k}", func(c flamego.Context) { w.note("h1:%s", c.Param("k")) },
 			func(c flamego.Context) { sched.Point(); w.note("h2:%s", c.Param("k")); w.own(c) },
 			func(c flamego.Context) { w.note("h3:%s", c.Param("k")) })
-		w.f.Action(func(c flamego.Context) string { sched.Point(); w.note("action:%s", c.Param("k")); return "done " + c.Param("k") })
+		w.f.Action(func(c flamego.Context) string {
+			sched.Point()
+			w.note("action:%s", c.Param("k"))
+			return "done " + c.Param("k")
+		})
 		return w
 	}},
 	{Name: "three-Use-calls+two-single-handler-routes", Build: func(n int) *world {
@@ -257,7 +280,11 @@ var scenarios = []scenario{
 		w := newWorld(planFor(n, func(t int) []reqSpec { return []reqSpec{{"GET", paths[t%4], nil}} }))
 		w.f.Use(flamego.Renderer())
 		w.f.Get("/tea", func() (int, string) { sched.Point(); return 418, "teapot" })
-		w.f.Get("/json", func(r flamego.Render, c flamego.Context) { sched.Point(); w.own(c); r.JSON(201, map[string]int{"t": 1}) })
+		w.f.Get("/json", func(r flamego.Render, c flamego.Context) {
+			sched.Point()
+			w.own(c)
+			r.JSON(201, map[string]int{"t": 1})
+		})
 		w.f.Get("/text", func(r flamego.Render, c flamego.Context) { sched.Point(); w.own(c); r.PlainText(203, "plain text") })
 		w.f.Get("/err", func() error { sched.Point(); return fmt.Errorf("failure") })
 		w.f.Get("/bytes", func(c flamego.Context) (int, []byte) { sched.Point(); w.own(c); return 202, []byte("raw") })
@@ -275,6 +302,71 @@ var scenarios = []scenario{
 			w.own(c)
 			w.note("store=%s reqval=%s", st.Name(), rv.ID())
 			return st.Name() + " " + rv.ID()
+		})
+		return w
+	}},
+	{Name: "not-found-chains+static-middleware", Build: func(n int) *world {
+		// application middleware incl. Static (serving a real file) in front of a user not-found chain;
+		// one thread is served a file, the others fall through to not-found / a route
+		paths := []string{"/file.txt", "/missing", "/r/1", "/"}
+		w := newWorld(planFor(n, func(t int) []reqSpec { return []reqSpec{{"GET", paths[t%4], nil}} }))
+		w.f.Use(flamego.Static(flamego.StaticOptions{Directory: staticFixture(), SetETag: true}))
+		w.f.Use(func(c flamego.Context) { sched.Point(); w.note("mw:%s", c.Request().URL.Path) })
+		w.f.NotFound(func(c flamego.Context) string {
+			sched.Point()
+			w.own(c)
+			c.ResponseWriter().WriteHeader(404)
+			return "nf " + c.Request().URL.Path
+		})
+		w.f.Get("/r/{k}", func(c flamego.Context) string { sched.Point(); w.own(c); return "r " + c.Param("k") })
+		return w
+	}},
+	{Name: "optional-named-route-URLs+cookies+query", Build: func(n int) *world {
+		w := newWorld(planFor(n, func(t int) []reqSpec {
+			return []reqSpec{{"GET", fmt.Sprintf("/users/u%d/settings", t), map[string]string{"Cookie": fmt.Sprintf("ck=v%d", t)}}}
+		}))
+		h := func(c flamego.Context) string {
+			sched.Point()
+			w.own(c)
+			t := w.me()
+			long := c.URLPath("u", "name", fmt.Sprintf("n%d", t), "withOptional", "true")
+			sched.Point()
+			short := c.URLPath("u", "name", fmt.Sprintf("n%d", t))
+			if t%2 == 1 {
+				short, long = c.URLPath("u", "name", fmt.Sprintf("n%d", t)), c.URLPath("u", "name", fmt.Sprintf("n%d", t), "withOptional", "true")
+			}
+			c.SetCookie(http.Cookie{Name: "out", Value: c.Cookie("ck") + " +"})
+			w.note("params=%s long=%s short=%s cookie=%s", fmtParams(c.Params()), long, short, c.Cookie("ck"))
+			return long + " " + short
+		}
+		w.f.Get("/users/{name}/?settings", h).Name("u")
+		return w
+	}},
+	{Name: "response-writer-hooks+flush+nested-invoke", Build: func(n int) *world {
+		w := newWorld(planFor(n, func(t int) []reqSpec { return []reqSpec{{[]string{"GET", "HEAD"}[t%2], fmt.Sprintf("/w/%d", t), nil}} }))
+		w.f.Map(&appStore{name: "store"})
+		w.f.Use(func(c flamego.Context) {
+			t := w.me()
+			c.ResponseWriter().Before(func(rw flamego.ResponseWriter) {
+				sched.Point()
+				rw.Header().Set("X-Hook", fmt.Sprint(t))
+				w.note("hook:status=%d", rw.Status())
+			})
+		})
+		w.f.Any("/w/{k}", func(c flamego.Context) {
+			sched.Point()
+			w.own(c)
+			// nested invocation and struct injection from inside a handler
+			vals, err := c.Invoke(func(st *appStore, r *http.Request) string { return st.Name() + ":" + r.URL.Path })
+			var target struct {
+				St *appStore `inject:""`
+			}
+			aerr := c.Apply(&target)
+			w.note("invoke=%v,%v apply=%v,%v", vals[0].String(), err, target.St != nil, aerr)
+			c.ResponseWriter().Flush()
+			sched.Point()
+			_, _ = c.ResponseWriter().Write([]byte("body " + c.Param("k")))
+			w.note("size=%d status=%d", c.ResponseWriter().Size(), c.ResponseWriter().Status())
 		})
 		return w
 	}},
